@@ -148,6 +148,7 @@ func tyOf(t types.Type) string {
 type castX struct {
 	p        *pkgInfo
 	specials map[string]string // normalised body text -> special id
+	binds    map[string]string // identifiers bound by an if-statement's init (`year := val.Year()`) -> their translation
 }
 
 func (x *castX) constInt(e ast.Expr) (string, bool) {
@@ -174,6 +175,9 @@ func (x *castX) expr(e ast.Expr) (string, bool) {
 			return ".val", true
 		case "v":
 			return ".parsed", true
+		}
+		if b, ok := x.binds[n.Name]; ok {
+			return b, true
 		}
 		return "", false
 	case *ast.BinaryExpr:
@@ -272,6 +276,10 @@ func (x *castX) expr(e ast.Expr) (string, bool) {
 			case sel.Sel.Name == "Unix" && len(args) == 0:
 				if a, ok := x.expr(sel.X); ok {
 					return "(.unix " + a + ")", true
+				}
+			case sel.Sel.Name == "Year" && len(args) == 0:
+				if a, ok := x.expr(sel.X); ok {
+					return "(.year " + a + ")", true
 				}
 			case sel.Sel.Name == "Format" && len(args) == 1:
 				if a, ok := x.expr(sel.X); ok {
@@ -399,6 +407,25 @@ func (x *castX) branch(body []ast.Stmt) string {
 			}
 		}
 	case 2:
+		// `if id := e; cond(id) { fail }` : the binding is substituted into the guard
+		if ifs, ok := body[0].(*ast.IfStmt); ok && ifs.Init != nil && ifs.Else == nil && len(ifs.Body.List) == 1 {
+			if as, ok := ifs.Init.(*ast.AssignStmt); ok && as.Tok == token.DEFINE && len(as.Lhs) == 1 && len(as.Rhs) == 1 {
+				if id, ok := as.Lhs[0].(*ast.Ident); ok {
+					if bound, ok := x.expr(as.Rhs[0]); ok {
+						if s, ok := x.failStmt(ifs.Body.List[0]); ok {
+							x.binds = map[string]string{id.Name: bound}
+							g, okg := x.guard(ifs.Cond)
+							x.binds = nil
+							if okg {
+								if e, ok := x.okStmt(body[1]); ok && e != "NIL" {
+									return fmt.Sprintf("(.guarded %s %s %s)", g, lstr(s), e)
+								}
+							}
+						}
+					}
+				}
+			}
+		}
 		if ifs, ok := body[0].(*ast.IfStmt); ok && ifs.Init == nil && ifs.Else == nil && len(ifs.Body.List) == 1 {
 			// guarded
 			if s, ok := x.failStmt(ifs.Body.List[0]); ok {
